@@ -100,7 +100,7 @@ PROPS = {
         "race": True, "race_share": 0.35,
     },
     "C07": {
-        "autoyield": ["lib/concurrent/concurrent.go"],
+        "autoyield": ["lib/concurrent/concurrent.go", "env/env.go"],
         "level": "exploration",
         "design_ref": "DESIGN.md §5.4",
         "technique": "deterministic simulation: fake clock, cancellation injected at any step or instant into generated non-terminating programs; bounded-steps-after-cancel invariant",
@@ -115,7 +115,7 @@ PROPS = {
                 "sleep, return, rethrow; plus handler and finally probes), a step cost of 1us..1ms with optional jitter, and a cancellation (kind x instant, log-uniform up to ~32k steps). "
                 "non-trivial = the context ended while the program was running; distinct = distinct (program text, cancellation kind, instant, interleaving) hash",
         "assumptions": COMMON_ASSUMPTIONS + ["the word 'timeout' in the error message identifies a timeout error"],
-        "must_hit": ["fault:deadline", "fault:cancel-at-step", "fault:parent-cancel-at-step", "fault:ended-at-entry", "fault:deadline-parent", "wake:sleep.ctx", "wake:future.deref.ctx", "handler_probe_ok", "shape:try", "shape:macro", "shape:tail-noargs", "shape:deref-shared-pending", "shape:eval", "finally_probe_ok"],
+        "must_hit": ["fault:deadline", "fault:cancel-at-step", "fault:parent-cancel-at-step", "fault:ended-at-entry", "fault:deadline-parent", "wake:sleep.ctx", "wake:future.deref.ctx", "handler_probe_ok", "shape:try", "shape:macro", "shape:tail-noargs", "shape:deref-shared-pending", "shape:eval", "shape:background-env-writer", "finally_probe_ok"],
         "race": False,
     },
     "C03": {
